@@ -129,18 +129,25 @@ CLAIMED = {
             "theorems over the component models (Cjet.Props.C06 lists them: reader pointers in bounds and parser handed exactly its own bytes, "
             "writer fill <= capacity and copy ranges, matcher slots filled / fill index < count / state_matches never faults, WebSocket fragments "
             "and binary frames never call an unset callback, invalid and oversize headers refused, unmask fast path byte-exact, hash table "
-            "well-formed for every sequence, log-buffer prefix arithmetic). The rest is SEARCH on the assembled daemon under ASan+UBSan on the "
+            "well-formed for every sequence, log-buffer prefix arithmetic; for the epoll dispatcher (Cjet.Evloop, transcribed from eventloop_epoll.c) "
+            "no_call_after_remove within and across batches for every batch, mask and callback behaviour, with a machine-checked counterexample "
+            "for the loop before its repair; for the JSON text layer (Cjet.Cjson, transcribed from the vendored cJSON.c) parser reads in bounds "
+            "for every byte string, parse_string writes within its allocation, nesting bounded). Component ties: the real eventloop_epoll.c with "
+            "really freed io_events and the real cJSON.c on exactly sized buffers, both under ASan, against their models. The rest is SEARCH on the assembled daemon under ASan+UBSan on the "
             "simulated kernel: structured sessions through the model tie with random segmentation, and byte-level chaos on all three endpoints "
             "(valid/mutated/truncated/oversized raw frames, HTTP requests, WebSocket frames of every opcode/flag/length class, random bytes; random "
             "read sizes, interleaving and batch composition) with a bystander connection that must survive and still be served.",
-            TB + "cJSON, http-parser, zlib and sha1 internals are not modelled; uninitialised reads are only seen where ASan/UBSan see them.",
+            TB + "http-parser, zlib and sha1 internals are not modelled (cJSON's text layer is; its number conversion is an oracle); "
+            "uninitialised reads are only seen where ASan/UBSan see them.",
             "Lean 4 proof of index-safety obligations + sanitizer-backed search on the whole daemon (stated as partial)", "DESIGN.md §6 C06"),
     "C08": ("proof",
             "25 Lean theorems over the daemon model: groups_spec / access_iff_shared_group, peer_groups_from_auth_only (invariant: a peer's group "
             "words are zero or exactly those of the credential record whose password it presented), fresh_peer_has_no_groups (both transports), "
             "failed_auth_changes_nothing, visible_only_shared_group and get_only_shared_group, set_call_only_shared_group / routed_only_if_shared, "
             "unauthenticated_sees_nothing_protected, password_noninterference (outputs depend on comparison verdicts, not on password bytes), "
-            "local_only_add, is_localhost_iff. " + DAEMON_TIE + "Families: generated credential files (users x group sets), allocator filling fresh "
+            "local_only_add, is_localhost_iff; on the component model of the real accept path (Cjet.Accept, byte patterns regenerated from "
+            "linux_io.c) local_bit_exact / _other_families / _unix_unnamed / _unix_pathname. " + DAEMON_TIE + "Component tie: the real "
+            "is_localhost on every perturbed byte and truncation of the loopback patterns. Families: generated credential files (users x group sets), allocator filling fresh "
             "memory with adversarial patterns (uninitialised group words would be non-zero), local-only-add build. Monitor: visibility / set / call "
             "follow the authenticated user's groups; passwords searched in every byte written and every syslog line.",
             TB + DAEMON_NOTE + "crypt(3) is outside the model (plaintext comparison there; SHA-512 crypt hashes of the same passwords in the file).",
@@ -156,13 +163,17 @@ CLAIMED = {
             "double->ns conversion is IEEE in both code and executable model and opaque in proofs.",
             "Lean 4 proof over executable model + differential correspondence with the compiled daemon", "DESIGN.md §6 C14, docs/C14-proofs.md"),
     "C19": ("proof",
-            "PARTIAL (zlib assumed): Lean theorems over the bookkeeping of compression.c and the offer parser of websocket.c: reassemble_in_bounds "
-            "(all fragment size sequences, repaired code), reassemble_in_bounds_iff + counterexample for the original, frames_memory_safe, "
-            "tail_roundtrip, outloop_bookkeeping, response_len_le_buffer (any header value), response_params_legal, roundtrip_given_zlib_partial "
-            "and roundtrip_session_given_zlib_partial (hypothesis excludes the open finding F37: tiny payloads overflow the 2*len output buffer). "
+            "zlib is an ORACLE (not modelled): 19 Lean theorems over the bookkeeping of compression.c and the offer parser of websocket.c: "
+            "reassemble_in_bounds (all fragment size sequences), reassemble_in_bounds_iff + counterexample for the original, frames_memory_safe, "
+            "tail_roundtrip, outloop_bookkeeping, response_len_le_buffer (any header value), response_params_legal, offer_parse_reads_in_bounds, "
+            "compress_never_truncates and compress_no_oob_for_any_zlib_output (no hypothesis on zlib: for every output length the sender sends a "
+            "complete message or reports an error), roundtrip_given_zlib and roundtrip_session_given_zlib (hypotheses on the oracle only: output "
+            "ends in the sync-flush tail, inflate inverts deflate, output length within deflateBound + flush marker), and the counterexample for "
+            "the sender before the repair of F37. "
             "Tie: real compression.c + zlib + negotiation code under ASan: exhaustive fragment-size sequences, every offer subset/order/window, "
             "round trips over payload kinds x sizes x levels x windows x takeover x fragmentations through three receive paths, corrupt streams.",
-            TB + "Losslessness rests on zlib (not modelled; the round-trip peer uses the same zlib). F37 is an open known finding printed on every run.",
+            TB + "Losslessness rests on zlib (an oracle with three named hypotheses; the round-trip peer uses the same zlib). F23/F36/F37/F38 were "
+            "repaired in /repo and run as regressions.",
             "Lean 4 proof of bookkeeping (+ machine-checked counterexamples) + differential correspondence with the compiled C", "DESIGN.md §6 C19, docs/C19.md"),
     "C05": ("proof",
             "12 Lean theorems over the daemon model: closing_steps, disconnect_post (after any step that emits closed c — EOF/error or a message the "
@@ -182,7 +193,12 @@ CLAIMED = {
             "teardown, relay and timeout path do not depend on any send result), parseJsonRpc_independent / fanout_independent (a step depends only on "
             "the results of the response to the requester and of the routed request to the owner), runs_independent / healthy_peers_unaffected (two "
             "runs differing only in send results for a faulty set F give every peer outside F identical messages and equal final states), "
-            "answered_exactly_once_under_faults, accept_failure_survived for a model of the repaired accept loop (+ counterexample for the original). "
+            "answered_exactly_once_under_faults, accept_failure_survived for a model of the repaired accept loop (+ counterexample for the original); "
+            "component level: for the real dispatcher (Cjet.Evloop) others_undisturbed, every_entry_gets_its_turn, error masks call only the error "
+            "function, abort_stops_everything, eintr_continues; for the real accept loop (Cjet.Accept, errno classes regenerated from linux_io.c) "
+            "fatal_class_exact, retry_class_exact, abort_only_on_fatal, listener_survives_transient, retry_class_continues_accepting, "
+            "loop_terminates_when_queue_drains. Component ties: real eventloop_epoll.c and real linux_io.c on scripted kernels (every errno, every "
+            "single and double fault position) against those models. "
             + DAEMON_TIE + "Families: subscribers whose kernel send path errors, blocks or accepts a few bytes, garbage senders, failing accept "
             "(eight errno values) on every listener. Monitor: each scenario is run twice (faulty / healed) and every healthy peer must receive "
             "identical messages and the element set must be equal; the daemon must still serve at the end.",
@@ -193,7 +209,9 @@ CLAIMED = {
             "21 Lean theorems: on the daemon model no_double_destroy, no_double_arm, destroyed_were_created, held_timers_live, timer_ledger (the "
             "timers created and not yet destroyed over the history are exactly those of the stored routing entries), baseline_when_no_peers, "
             "disconnect_all_reaches_baseline, term_releases_all, objects_owned_once, close_releases_exactly; on a model of alloc.c (size_t arithmetic, "
-            "cap test as written, OS-failure oracle) cap_respected, accounting_exact, refusal_iff, free_returns_to_baseline. " + DAEMON_TIE +
+            "cap test as written, OS-failure oracle) cap_respected, accounting_exact, refusal_iff, free_returns_to_baseline; on a model of the accept "
+            "path of linux_io.c fd_closed_or_owned_exactly_once, fd_discipline_monitor, no_leak_of_peer_or_bs, init_failure_releases_both, "
+            "start_server_unwinds, stop_server_closes_listener (every script of accept results and set-up failures). " + DAEMON_TIE +
             "Monitor: at every snapshot with all client connections gone and after SIGTERM the accounted heap, peer count, simulated descriptor table "
             "and armed timers must be at baseline and run_io must return 0; the simulated kernel reports every double close, operation on a closed or "
             "foreign descriptor and epoll_ctl on a non-epoll descriptor. Allocator tie: real alloc.c with intercepted malloc/calloc on random scripts "
